@@ -10,10 +10,10 @@ import c13lib as L
 
 VERIF = os.path.dirname(os.path.dirname(os.path.dirname(os.path.abspath(__file__))))
 CORPUS = os.path.join(VERIF, "corpus", "C13")
-CANDIDATE_FINDINGS = ("C13-alloc-io-nonpow2", "C13-decoder-subword")
+CANDIDATE_FINDINGS = ("C13-alloc-io-nonpow2", "C13-decoder-subword", "C13-alloc-size0-hang")
 
-QUICK = {"bus": 12000, "loc": 4000, "cm": 2500, "dec": 1500, "banks": 240, "hw": 24}
-THOROUGH = {"bus": 150000, "loc": 40000, "cm": 30000, "dec": 20000, "banks": 4000, "hw": 400}
+QUICK = {"bus": 11000, "busraw": 1500, "loc": 4000, "cm": 2500, "dec": 1500, "banks": 240, "hw": 24}
+THOROUGH = {"bus": 150000, "busraw": 20000, "loc": 40000, "cm": 30000, "dec": 20000, "banks": 4000, "hw": 400}
 CHUNK = 250
 
 
@@ -33,7 +33,25 @@ def known_ids(ctx):
     open, plus the two candidates reported by this builder while they are not listed yet (see probes)."""
     listed = {e["id"] for e in ctx.known if e.get("status") == "open"}
     all_listed = {e["id"] for e in ctx.known}
-    return tuple(sorted(listed | {c for c in CANDIDATE_FINDINGS if c not in all_listed}))
+    return tuple(sorted(listed | {c for c in CANDIDATE_FINDINGS if c not in all_listed} | foreign_open()))
+
+
+_FOREIGN = []
+
+
+def foreign_open():
+    """Open findings listed under ANOTHER property whose region intersects C13's selection oracle: C06's
+    point-to-point shortcut for a slave region at origin 0 smaller than the address space (read-only access to
+    known_findings.json; when that entry becomes `fixed` the oracle demands exactness there as well)."""
+    if not _FOREIGN:
+        ids = set()
+        try:
+            data = json.load(open(os.path.join(VERIF, "known_findings.json")))
+            ids = {e["id"] for e in data.get("findings", []) if e.get("id") == L.P2P_FINDING and e.get("status") == "open"}
+        except Exception:
+            pass
+        _FOREIGN.append(ids)
+    return _FOREIGN[0]
 
 
 def procs():
@@ -43,6 +61,9 @@ def procs():
 def model_norm(kind, ans):
     if kind == "banks":
         return "rej" if ans.startswith("rej:") else ans
+    if kind == "busraw":        # the ghost list `stale` is kept as is; error names are stripped from the verdicts
+        parts = ans.split(" # ")
+        return " # ".join([L.strip_errs(parts[0]), parts[1].split(":")[0]] + parts[2:])
     return L.strip_errs(ans) if kind in ("bus", "loc") else ans
 
 
@@ -77,6 +98,16 @@ def _hist(ctx, rec, model):
             if rq is not None:
                 what = "io" if rq[1] else ("alloc" if rq[2] is None else "fixed")
                 cov.count("bus.%s.%s" % (what, "ok" if w == "ok" else "rej"))
+    elif k == "busraw":
+        parts = model.split(" # ")
+        for w in parts[0].split():
+            cov.count("busraw.verdict." + w)
+        cov.count("busraw.finalize." + parts[1])
+        cov.count("busraw.histories_with_leftover" if parts[-1].strip() else "busraw.histories_without_leftover")
+        cov.count("busraw.leftover_regions", len(parts[-1].split()))
+        sl = set(parts[5].split()) & set(parts[-1].split())
+        if sl:
+            cov.count("busraw.slave_on_leftover_region")
     elif k == "loc":
         cov.count("loc.via_SoC_helpers" if rec["input"].get("via_soc") else "loc.direct_handler")
         cov.count("loc.reserved", len(rec["input"].get("reserved", [])))
@@ -195,28 +226,26 @@ def hw_cases(ctx, n, dis, stats):
         aw = rng.choice([10, 12])
         dw = rng.choice([32, 64])
         _, _, ops, run = L.gen_bus_history(rng, nops=rng.randint(5, 12), cfg=(aw, dw), hw=True)
-        if len(run.bus.slaves) < 2 or not run.bus.masters:
+        if not run.bus.slaves or not run.bus.masters:
+            continue
+        if len(run.bus.slaves) < 2 and tries % 4:       # mostly several slaves; single-slave / point-to-point too
             continue
         with L.time_limit(120):
             alarm, bits, fin = L.hw_decoder_check(aw, dw, ops, known, run.cfg)
         if bits is None:
             continue
         done += 1
-        lines, names = [], []
-        r0 = L.BusRun(aw, dw, run.cfg)
-        for op in ops:
-            r0.apply(tuple(op))
-        for nme in bits:
-            r = r0.bus.regions[nme]
-            lines.append("decall %d %d %d %d %s" % (aw, dw, r.origin, r.size, L.b(r.decode)))
-            names.append(nme)
-        ans = ctx.lean.call_batch(lines)
+        # the model's `BusH.selects` (decoder, or everything for point-to-point) against the hardware, all words
+        names = list(bits)
+        line, real = L.sel_line(aw, dw, ops, run.cfg, list(range(2 ** (aw - (dw // 8).bit_length() + 1))),
+                                [(n, bits[n]) for n in names])
+        ans = ctx.lean.call_batch([line])[0]
         inp = {"kind": "bus", "aw": aw, "dw": dw, "cfg": run.cfg, "ops": [list(o) for o in ops], "hw": True}
-        ctx.cov.count("hw.interconnect=%s" % run.cfg["ic"])
-        for nme, l, a in zip(names, lines, ans):
-            stats["dec_cmp"] += 1
-            if a != bits[nme]:
-                dis.append(Dis("decoder-hw", inp, l, bits[nme], a))
+        ctx.cov.count("hw.interconnect=%s" % ("point-to-point" if len(names) == 1 and set(bits[names[0]]) == {"1"}
+                                              else run.cfg["ic"]))
+        stats["dec_cmp"] += len(names)
+        if ans != real:
+            dis.append(Dis("decoder-hw", inp, line, real, ans))
         if alarm:
             dis.append(Dis("oracle", inp, L.bus_line(aw, dw, ops), "", "", "interconnect hardware: " + alarm))
         ctx.cov.count("hw.interconnects")
@@ -234,7 +263,7 @@ def correspond(ctx):
     nc = run_corpus(ctx, dis, stats)
     ctx.cov.add_cases("corpus witnesses", nc, nc, True)
     tasks = []
-    for kind in ("banks", "bus", "loc", "cm", "dec"):
+    for kind in ("banks", "bus", "busraw", "loc", "cm", "dec"):
         n = plan[kind]
         chunk = 40 if kind == "banks" else CHUNK
         while n > 0:
@@ -257,12 +286,13 @@ def correspond(ctx):
                 ctx.log("more than 40 disagreements/alarms: stopping the correspondence run early")
                 pool.terminate()
                 break
-    names = {"bus": "SoCBusHandler histories (add_region/alloc/add_slave/add_master/io check/finalize)",
+    names = {"busraw": "SoCBusHandler histories WITHOUT roll-back (a caller catching SoCError): state left behind by refused calls",
+             "bus": "SoCBusHandler histories (add_region/alloc/add_slave/add_master/io check/finalize)",
              "loc": "SoCCSRHandler/SoCIRQHandler histories (add/alloc/address_map/enable)",
              "cm": "ConstraintManager histories (request/request_all/request_remaining/lookup/add_extension)",
              "dec": "SoCRegion.decoder instances (exhaustive for toy widths, boundaries +-1 else)",
              "banks": "real SoCMini(...).finalize() with CSR banks around the page capacity (csr width 8/32, paging 0x400-0x1000)"}
-    for k in ("bus", "loc", "cm", "dec", "banks"):
+    for k in ("bus", "busraw", "loc", "cm", "dec", "banks"):
         ctx.cov.add_cases(names[k], per_kind[k][0], per_kind[k][1], False)
     ctx.cov.count("decoder_bitstrings_compared", stats["dec_cmp"])
     ctx.log("histories: %d in %.1fs (%s), %d decoder bit-strings compared" % (
@@ -272,8 +302,10 @@ def correspond(ctx):
                 "non-trivial = at least one request was granted (a region/location/IO was handed out, or a decoder "
                 "accepted some address)")
     ctx.assumptions = [
-        "alloc_region(size=0) is outside the model (the Python loop does not terminate once a candidate overlaps)",
-        "a rejected request aborts the build: histories continue from the state before the rejected call",
+        "alloc_region(size=0) is outside the model (the Python loop does not terminate once a candidate overlaps; "
+        "run under a CPU-time guard by the probe, see notes)",
+        "bus/loc/cm histories continue from the state before a rejected call (transactional model, harness rolls "
+        "back); the busraw histories continue on the state the real code left behind (model RawH)",
         "IO regions always carry an origin; add_slave is never given a SoCIORegion or name=None",
     ]
     for d in dis[:5]:
@@ -297,7 +329,7 @@ def shrink(inp, known):
                     cur, changed = cand, True
                     break
         return cur
-    if inp["kind"] not in ("bus", "loc", "cm"):
+    if inp["kind"] not in ("bus", "busraw", "loc", "cm"):
         return inp
     cur = dict(inp)
     changed = True
@@ -358,7 +390,7 @@ def search(ctx, disagreements, proof_info):
     t0 = time.time()
     tasks = []
     for _ in range(4000):
-        for kind in ("bus", "bus", "loc", "cm", "dec"):
+        for kind in ("bus", "bus", "busraw", "loc", "cm", "dec"):
             tasks.append((kind, ctx.rng.getrandbits(48), CHUNK, known))
     with mp.get_context("fork").Pool(procs()) as pool:
         for recs in pool.imap_unordered(L.work_chunk, tasks, chunksize=1):
@@ -422,6 +454,38 @@ def _probes(ctx):
     # candidate/open: sub-word regions share a decoder word
     alarm = L.run_bus_history(32, 32, [("S", 1, 0x1001, 1, 1, 0, 1), ("S", 2, 0x1002, 1, 1, 0, 1), ("M", 1)], known=())["alarm"]
     out.append(("C13-decoder-subword", bool(alarm), alarm or "sub-word regions 0x1001/1 and 0x1002/1 no longer share word 0x400"))
+    # candidate: alloc_region(size=0) under a CPU-time guard (2 s; legitimate allocations need < 0.5 s)
+    bus = S.SoCBusHandler()
+    bus.add_region("a", S.SoCRegion(origin=0, size=0x1000))
+    hangs, what0 = False, ""
+    try:
+        with L.time_limit(2.0):
+            bus.add_region("z", S.SoCRegion(size=0))
+        what0 = "returned a region at 0x%x of size 0" % bus.regions["z"].origin
+    except L.HistoryTimeout:
+        hangs, what0 = True, "did not return within 2 s of CPU time (origin += 0 never advances past the overlapping candidate)"
+        bus.regions.pop("z", None)
+    except L.SoCError:
+        L.envshim.quiet_stderr()
+        what0 = "was refused with SoCError"
+    free = S.SoCBusHandler()
+    free.add_region("z", S.SoCRegion(size=0))
+    out.append(("C13-alloc-size0-hang", hangs, "add_region(SoCRegion(size=0)) with a region at origin 0 present %s; on an empty "
+                "handler it returns a zero-size region at 0x%x" % (what0, free.regions["z"].origin)))
+    # fixed: a refused add_slave(name, region) left its region registered; add_slave(name) then used it.
+    # Witness on the NON-rolled-back handler: must leave no trace and refuse the third call on the fixed code.
+    r = L.run_busraw_history(32, 32, [("C", 0), ("S", 1, 0, 0x2000, 1, 0, 1), ("S", 2, 0x1000, 0x1000, 1, 0, 1), ("S", 2), ("M", None)])
+    verd = r["result"].split(" # ")[0].split()
+    io = L.BusRun(32, 32, raw=True)
+    io.apply(("R", 1, 1, 0x80000000, 0x2000, 0, 0, 1))
+    io.apply(("R", 2, 1, 0x80001000, 0x1000, 0, 0, 1))          # refused: IO Region overlap
+    left = bool(r["stale"]) or "r2" in r["result"].split(" # ")[2] or verd != ["ok", "ok", "rej", "rej", "ok"] or bool(io.stale)
+    out.append(("C13-rejected-region-left-registered", left,
+                "add_slave(r2, [0x1000,+0x1000)) refused (overlaps r1 [0,+0x2000)): bus.regions %s; add_slave(r2) afterwards "
+                "%s; refused overlapping IO region %s" % (
+                    "keeps r2" if r["stale"] else "has no trace of r2",
+                    "accepted (slave on the overlapping region, do_finalize %s)" % r["fin"] if verd[3:4] == ["ok"] else "refused",
+                    "stays in io_regions" if io.stale else "leaves no trace")))
     listed = {e["id"] for e in ctx.known}
     res = []
     for fid, still, what in out:
